@@ -10,8 +10,10 @@
 pub mod bcfraw;
 pub mod bigdict;
 pub mod cmp;
+pub mod foreign;
 pub mod gen_;
 pub mod io;
+pub mod keyed;
 pub mod model;
 pub mod multi;
 pub mod span;
